@@ -132,7 +132,6 @@ class JointRecurrencePlot(RecurrencePlot):
         self.metric = metric
 
         self.JR = None
-        """The joint recurrence matrix."""
         self.N = 0
         """The length of both embedded time series x and y."""
 
@@ -211,6 +210,17 @@ class JointRecurrencePlot(RecurrencePlot):
         else:
             raise ValueError("Both time series x and y need to have the same "
                              "length!")
+
+    @property
+    def JR(self):
+        """The joint recurrence matrix."""
+        return self._JR
+
+    @JR.setter
+    def JR(self, JR):
+        self._JR = JR
+        # invalidate cache
+        self._mut_R += 1
 
     def __str__(self):
         """
